@@ -1451,6 +1451,25 @@ int32_t tls13ParseServerHello(ssl_t *ssl,
     rc = tls13ParseServerHelloExtensions(ssl, pb);
     if (rc < 0)
     {
+        if (rc == SSL_ENCODE_RESPONSE && ssl->tls13IncorrectDheKeyShare)
+        {
+            /* HelloRetryRequest. The transcript hash is restarted with
+               Hash(ClientHello1) under the hash of the cipher suite the
+               server selected here (RFC 8446, 4.4.1): it must be known
+               before tls13TranscriptHashReinit() runs. */
+            const sslCipherSpec_t *hrrCipher = sslGetCipherSpec(ssl, cipher);
+
+            if (hrrCipher == NULL
+                    || hrrCipher->ident == SSL_NULL_WITH_NULL_NULL
+                    || !clientOfferedCipherSuite(ssl, cipher))
+            {
+                ssl->err = SSL_ALERT_ILLEGAL_PARAMETER;
+                psTraceIntInfo("HelloRetryRequest selects a cipher we " \
+                        "did not offer: %d\n", cipher);
+                return MATRIXSSL_ERROR;
+            }
+            ssl->cipher = hrrCipher;
+        }
         /* In addition to failure cases, we can end up here
            if we negotiated TLS <1.3. In that case, return
            SSL_NO_TLS_1_3 to fall back to the <1.3 decode
